@@ -18,6 +18,8 @@ void compareViews(Ctx& ctx, const TreeView& got, const TreeView& expect, unsigne
 // compare a view against a snapshot of itself
 void compareSnapshot(Ctx& ctx, const TreeView& v, const Snapshot& before, unsigned kindsMask, const std::string& cls,
                      const std::string& what);
+// every input particle is held by exactly one leaf of its tree (an empty or truncated tree must not pass vacuously)
+void checkComplete(Ctx& ctx, const TreeView& v, const std::string& cls);
 std::string locate(const TreeView& v, size_t bufIndex, size_t offset);
 // floating-point kernels: expansions and results compared as arrays of double, |a-b| <= tol * (max |expected| of the array)
 void compareViewsTol(Ctx& ctx, const TreeView& got, const TreeView& expect, double tol, const std::string& cls, const std::string& what);
